@@ -132,17 +132,33 @@ def body_geometry(case):
 
     conf = _config(case)
     N, T = case["n"], case["T"]
+    labels = set()
+    sub = case.get("subset")
     with quiet():
         with cut("RegionGeomToO(config)"):
             g = RegionGeomToO(conf)
-        with cut(f"RegionGeomToO.throw({N})"):
-            g.throw(N)
+        if sub:
+            # the object first serves the whole grid (incl. its accessors); the throw under test then passes a few of
+            # those instants explicitly, in generated order (all of them may be visible, or all occulted)
+            with cut(f"RegionGeomToO.throw({N}) [earlier throw on the same object]"):
+                g.throw(N)
+                g.val_times(), g.pathLens(), g.beta_rad()
+            pick = list(dict.fromkeys(i % N for i in sub))
+            fr = np.array(pick, dtype=np.float64) / N
+            with cut(f"RegionGeomToO.throw(array of {len(fr)} fractions)"):
+                g.throw(fr.copy())
+            labels.add("explicit_fractions_after_grid")
+        else:
+            fr = np.arange(N) / N
+            with cut(f"RegionGeomToO.throw({N})"):
+                g.throw(N)
+    M = len(fr)
     t0 = Time(case["date"], format="isot", scale="utc")
     times = g.times
-    require(len(times) == N, f"{len(times)} instants sampled, {N} requested")
+    require(len(times) == M, f"{len(times)} instants sampled, {M} requested")
     dt = (times - t0).to_value("s")
-    exp = np.arange(N) * (T / N)
-    require(bool(np.all(np.abs(dt - exp) <= 1e-6 + 1e-12 * T)), f"instants are not t0 + i T/N: offsets {dt[:4].tolist()} ... expected {exp[:4].tolist()} (N={N}, T={T})")
+    exp = fr * T
+    require(bool(np.all(np.abs(dt - exp) <= 1e-6 + 1e-12 * T)), f"instants are not t0 + f T: offsets {dt[:4].tolist()} ... expected {exp[:4].tolist()} (N={N}, T={T}, start {case['date']})")
     require(bool(np.all(dt < T)) and bool(np.all(dt >= 0)), f"an instant lies outside [t0, t0+T): max offset {dt.max()!r} s for T={T!r} (N={N})")
     # kept set
     Rd = R_EARTH + case["alt"]
@@ -155,16 +171,19 @@ def body_geometry(case):
     expect = (alpha < alpha_h) & (alpha > alpha_lim)
     band = math.radians(0.01)
     dontcare = (np.abs(alpha - alpha_h) < band) | (np.abs(alpha - alpha_lim) < band)
-    kept_times = g.val_times()
-    kept_idx = np.round((kept_times - t0).to_value("s") / (T / N)).astype(int) if len(kept_times) else np.array([], dtype=int)
-    kept = np.zeros(N, dtype=bool)
+    with cut("val_times()"):
+        kept_times = g.val_times()
+    kdt = (kept_times - t0).to_value("s") if len(kept_times) else np.array([], dtype=float)
+    kept_idx = np.array([int(np.argmin(np.abs(exp - x))) for x in kdt], dtype=int)
+    require(bool(np.all(np.abs(exp[kept_idx] - kdt) <= 1e-6 + 1e-12 * T)) if len(kdt) else True, "a kept instant is none of the sampled instants")
+    kept = np.zeros(M, dtype=bool)
     kept[kept_idx] = True
     require(len(set(kept_idx.tolist())) == len(kept_idx), "a kept instant appears twice")
     bad = np.where((kept != expect) & ~dontcare)[0]
     if bad.size:
         i = int(bad[0])
         raise Violation(
-            f"instant {i} of {N}: kept={bool(kept[i])}, but the source nadir angle is {math.degrees(alpha[i])!r} deg (horizon {math.degrees(alpha_h)!r}, limit {math.degrees(alpha_lim)!r} deg: occulted={bool(alpha[i] < alpha_h)}, emergence below limit={bool(alpha[i] > alpha_lim)})"
+            f"instant {i} of {M}{' (explicit fractions after a whole-grid throw on the same object)' if sub else ''}: kept={bool(kept[i])}, but the source nadir angle is {math.degrees(alpha[i])!r} deg (horizon {math.degrees(alpha_h)!r}, limit {math.degrees(alpha_lim)!r} deg: occulted={bool(alpha[i] < alpha_h)}, emergence below limit={bool(alpha[i] > alpha_lim)})"
         )
     # triangle relations on the reported values
     with cut("accessors"):
@@ -181,13 +200,16 @@ def body_geometry(case):
         require(bool(np.all(np.abs(nad - alpha[kept]) <= band)), "reported nadir angles differ from the independently computed ones by more than 0.01 deg")
         require(bool(np.all(np.abs(bdeg - np.degrees(beta)) <= 1e-9)), "betas() is not beta_rad() in degrees")
         require(bool(np.all((beta >= 0) & (beta < lim + 1e-12))), "a kept emergence angle is above the limit")
-    labels = set()
-    if 0 < k < N:
+    if 0 < k < M:
         labels.add("partial_kept")
     if k == 0:
         labels.add("none_kept")
-    if k == N:
+    if k == M:
         labels.add("all_kept")
+    if sub and not np.any(alpha < alpha_h):
+        labels.add("explicit_all_visible")
+    if "." in case["date"]:
+        labels.add("fractional_second_start")
     if N % 7 == 0 or N in (49, 98, 103, 107, 196):
         labels.add("awkward_N")
     if case["date"][:10] in ("2016-12-31", "2015-06-30", "2012-06-30", "2008-12-31", "2005-12-31") and T >= 3600:
@@ -297,14 +319,15 @@ def _block_cases(tier):
         }
 
 
-date_st = st.tuples(st.integers(2000, 2034), st.integers(1, 12), st.integers(1, 28), st.integers(0, 23), st.integers(0, 59), st.integers(0, 59)).map(
-    lambda t: f"{t[0]:04d}-{t[1]:02d}-{t[2]:02d}T{t[3]:02d}:{t[4]:02d}:{t[5]:02d}"
+# whole seconds, or a fractional part of 1..9 digits (a start time below the millisecond is ordinary for alerts)
+date_st = st.tuples(st.integers(2000, 2034), st.integers(1, 12), st.integers(1, 28), st.integers(0, 23), st.integers(0, 59), st.integers(0, 59), st.one_of(st.just(""), st.integers(1, 9).flatmap(lambda d: st.integers(1, 10**d - 1).map(lambda v: "." + str(v).zfill(d))))).map(
+    lambda t: f"{t[0]:04d}-{t[1]:02d}-{t[2]:02d}T{t[3]:02d}:{t[4]:02d}:{t[5]:02d}{t[6]}"
 )
 common = {
     "ra": st.one_of(st.floats(0.0, 2 * math.pi), st.sampled_from([0.0, math.pi, 2 * math.pi])),
     "dec": st.one_of(st.floats(-0.5 * math.pi, 0.5 * math.pi), st.sampled_from([0.0, 0.5 * math.pi, -0.5 * math.pi, math.radians(-23.4)])),
     # incl. windows that contain a leap second (UTC days of 86401 s: 2005, 2008, 2012, 2015, 2016)
-    "date": st.one_of(date_st, st.just("2022-06-02T01:00:00"), st.sampled_from(["2016-12-31T12:00:00", "2015-06-30T18:00:00", "2012-06-30T23:00:00", "2008-12-31T00:30:00", "2005-12-31T20:00:00", "2016-12-31T23:59:30"])),
+    "date": st.one_of(date_st, date_st, st.just("2022-06-02T01:00:00"), st.sampled_from(["2016-12-31T12:00:00", "2015-06-30T18:00:00", "2012-06-30T23:00:00", "2008-12-31T00:30:00", "2005-12-31T20:00:00", "2016-12-31T23:59:30"])),
     "T": st.one_of(log_uniform(1.0, 864000.0), st.sampled_from([86400.0, 3600.0, 1.0, 864000.0, 5400.0])),
     "n": st.one_of(st.integers(1, 400), st.sampled_from([1, 2, 49, 98, 103, 107, 196, 100, 400, 7, 3])),
     "lat": st.one_of(st.floats(-0.5 * math.pi, 0.5 * math.pi), st.sampled_from([0.0, 0.5 * math.pi, -0.5 * math.pi])),
@@ -318,6 +341,7 @@ common = {
 
 geo_common = dict(
     common,
+    subset=st.one_of(st.none(), st.none(), st.lists(st.integers(0, 10**6), min_size=1, max_size=4)),
     aim=st.one_of(st.none(), st.tuples(st.floats(-0.5, 1.5), st.floats(0.0, 2 * math.pi)).map(list), st.tuples(st.floats(-0.5, 1.5), st.floats(0.0, 2 * math.pi)).map(list)),
     T=st.one_of(log_uniform(1.0, 864000.0), st.sampled_from([86400.0, 3600.0, 600.0, 60.0, 5400.0]), log_uniform(60.0, 7200.0)),
 )
